@@ -112,6 +112,31 @@ def blackbox(ctx):
         GC.simple_layout(s, blocks, per_file=r.choice([None, 2]))
         s.meta = {"i": i}
         by_cb.setdefault(cb, []).append(s)
+    # the same 20-byte hash / the same key under several templates within one run (P2PKH(h), P2SH(h), P2PK(k), P2SH(HASH160 k),
+    # P2PKH(HASH160 k), witness programs of h): an output's row must not depend on which other outputs were evaluated before it
+    import hashlib
+    for i in range(ctx.n(10, 60)):
+        coin = K.COINS[i % 8]
+        h, key = GC.rb(r, 20), b"\x02" + GC.rb(r, 32)
+        hk = hashlib.new("ripemd160", hashlib.sha256(key).digest()).digest() if "ripemd160" in hashlib.algorithms_available else GC.rb(r, 20)
+        variants = [b"\x76\xa9\x14" + h + b"\x88\xac", b"\xa9\x14" + h + b"\x87", bytes([len(key)]) + key + b"\xac",
+                    b"\xa9\x14" + hk + b"\x87", b"\x76\xa9\x14" + hk + b"\x88\xac", b"\x00\x14" + h, b"\x76\xa9\x4c\x14" + h + b"\x88\xac"]
+        cb = CALLBACKS[i % 3]
+        blocks = GC.gen_chain(r, coin, 4, max_txs=1, max_io=1, auxpow_mix=False)
+        order = list(variants)
+        r.shuffle(order)
+        for j, b in enumerate(blocks[1:]):
+            outs = [(1000 + 7 * q, sc) for q, sc in enumerate(order[j * 2:] + order[:j * 2])]
+            b.txs.append(K.Tx([(GC.rb(r, 32), j, b"", 1)], outs))
+        prev = blocks[0].hash()
+        for b in blocks[1:]:
+            b.prev = prev
+            b.merkle_root = None
+            prev = b.hash()
+        s = K.Scenario(coin=coin, callback=cb)
+        GC.simple_layout(s, blocks)
+        s.meta = {"shared-hash": i}
+        by_cb.setdefault(cb, []).append(s)
     for cb, scns in by_cb.items():
         impl, model = bb.check(ctx, "adversarial-chains:" + cb, scns, comparators(cb))
         for s, res in zip(scns, impl):
